@@ -170,6 +170,142 @@ impl C08 {
         }
         Ok(())
     }
+
+    /// Mode D of the decoy campaign — zero-fill of the TAIL of a record, and the history goes on: the last entry written
+    /// crosses a block boundary (First frame up to the block end, Last frame of L bytes at the start of the next block);
+    /// its Last frame is zero-filled in place (a lost sector write; file length unchanged). `open` sees the orphan First
+    /// frame, then the end of the log, and the writer resumes right behind the orphan head. One entry whose serialized
+    /// size is exactly L is then appended (to the same queue or to another one) and the log restarted: the reader must
+    /// drop the orphan head when the new entry starts, never glue the new entry's bytes onto it.
+    pub fn orphan_head_campaign(&self, env: &mut Env, shard: u32, shards: u32) -> Result<(), CaseError> {
+        let variants: u32 = if env.tier == Tier::Quick { 48 } else { 768 };
+        for variant in 0..variants {
+            if variant % shards != shard {
+                continue;
+            }
+            let mut rng = 0x0D0D_u64 ^ ((variant as u64) << 9);
+            let dir = env.scratch.fresh("c08-head");
+            let crash_dir = env.scratch.fresh("c08-head-open");
+            let mut exec = Exec::new(&dir, Policy::DEFAULT)?;
+            exec.keep_appended = true;
+            let queue = ["q", "host-queue"][(splitmix(&mut rng) % 2) as usize];
+            let other = "p";
+            exec.step_concrete(COp::Create { q: QName::plain(queue) })?;
+            exec.step_concrete(COp::Create { q: QName::plain(other) })?;
+            let warmup = splitmix(&mut rng) % 3;
+            for round in 0..warmup {
+                exec.step_concrete(COp::Append { q: QName::plain(queue), pos: None, batch: vec![Pay { len: 7 + (splitmix(&mut rng) % 5000) as u32, seed: round, style: 0 }] })?;
+            }
+            if splitmix(&mut rng) % 2 == 0 {
+                exec.step_concrete(COp::Append { q: QName::plain(other), pos: None, batch: vec![Pay { len: 12, seed: 77, style: 0 }] })?;
+            }
+            // the completing entry goes to the host's own queue or to the other queue
+            let target = if variant % 3 == 1 { other } else { queue };
+            let overhead = 11 + target.len() + 12;
+            let tail_len = overhead + (splitmix(&mut rng) % 9000) as usize;
+            // host batch: optionally one small complete record first, then the record cut by the block end
+            let two_records = variant % 2 == 1;
+            let first_small: Vec<u8> = crate::util::fill(splitmix(&mut rng), 5 + (splitmix(&mut rng) % 40) as usize, 0);
+            let cursor = exec.driver.global_cursor() as usize % crate::util::BLOCK;
+            let remaining = crate::util::BLOCK - cursor;
+            let fixed = 11 + queue.len() + 12 + if two_records { 12 + first_small.len() } else { 0 };
+            if remaining < FRAME_HEADER + fixed + 1 {
+                env.class("decoy:orphan-head-alignment-skipped");
+                continue;
+            }
+            let head_len = remaining - FRAME_HEADER - fixed;
+            let big = crate::util::fill(splitmix(&mut rng), head_len + tail_len, 0);
+            let host_pos = exec.model.queues.get(queue).map(|state| state.next).unwrap_or(0);
+            let frames_before = exec.driver.tracer.frames.len();
+            {
+                let log = exec.driver.log.as_mut().unwrap();
+                exec.driver.tracer.begin_op(3000);
+                let res = if two_records {
+                    log.append_records(queue, None, [&first_small[..], &big[..]].into_iter())
+                } else {
+                    log.append_records(queue, None, std::iter::once(&big[..]))
+                };
+                res.map_err(|err| CaseError::Engine(format!("host append: {err}")))?;
+                exec.driver.tracer.feed(mrecordlog::verif_hooks::take_events()).map_err(CaseError::Engine)?;
+                exec.driver.tracer.end_op(3000);
+            }
+            let mut set = appended_set(&exec.appended);
+            if two_records {
+                set.entry((queue.to_string(), host_pos)).or_default().push(std::rc::Rc::from(&first_small[..]));
+                set.entry((queue.to_string(), host_pos + 1)).or_default().push(std::rc::Rc::from(&big[..]));
+            } else {
+                set.entry((queue.to_string(), host_pos)).or_default().push(std::rc::Rc::from(&big[..]));
+            }
+            exec.driver.close()?;
+            let host_frames: Vec<_> = exec.driver.tracer.frames[frames_before..].iter().filter(|frame| frame.op == 3000).cloned().collect();
+            let laid_out = host_frames.len() == 2
+                && host_frames[1].payload_len == tail_len
+                && host_frames[1].off as usize % crate::util::BLOCK == 0
+                && host_frames[0].name == host_frames[1].name;
+            if !laid_out {
+                env.class("decoy:orphan-head-layout-skipped");
+                continue;
+            }
+            let image = Image::from_dir(&dir).map_err(|err| CaseError::Engine(format!("read dir: {err}")))?;
+            let last = &host_frames[1];
+            let damage = CDamage::Fill { name: last.name.clone(), off: last.off, len: (FRAME_HEADER + tail_len) as u64, byte: 0 };
+            let mut damaged = image.clone();
+            apply(&mut damaged, &mut Extras::default(), &damage);
+            env.evals(1);
+            env.class("decoy:orphan-head-image-opened");
+            let fail = |msg: String, exec: &Exec| {
+                CaseError::Violation(Box::new(Failure {
+                    msg,
+                    signature: "phantom-record-from-orphan-head".to_string(),
+                    policy: Policy::DEFAULT,
+                    ops: exec.cops.clone(),
+                    extra: json!({"orphan_head_variant": variant}),
+                }))
+            };
+            let mut recovered = match recover(&damaged, &crash_dir, Policy::DEFAULT) {
+                Ok(recovered) => recovered,
+                Err(RecoverError::Engine(msg)) => return Err(CaseError::Engine(msg)),
+                Err(_) => continue,
+            };
+            if let Err((msg, ..)) = check_no_phantom(&set, &recovered.state) {
+                recovered.driver.close()?;
+                return Err(fail(format!("orphan-head campaign variant {variant}: the {tail_len}-byte Last frame of the last record (queue {queue:?}) zero-filled in place: {msg}"), &exec));
+            }
+            // the history goes on, on the damaged log
+            let filler = crate::util::fill(splitmix(&mut rng), tail_len - overhead, 0);
+            let appended = {
+                let log = recovered.driver.log.as_mut().unwrap();
+                crate::util::guarded(|| log.append_record(target, None, &filler[..]).map(|outcome| outcome.last_position).map_err(|err| err.to_string()))
+            };
+            let _ = recovered.driver.tracer.feed(mrecordlog::verif_hooks::take_events());
+            recovered.driver.close()?;
+            let Ok(Ok(Some(filler_pos))) = appended else {
+                env.class("decoy:orphan-head-append-failed-skipped");
+                continue;
+            };
+            set.entry((target.to_string(), filler_pos)).or_default().push(std::rc::Rc::from(&filler[..]));
+            env.evals(1);
+            let state = match crate::recover::recover_dir(&crash_dir, Policy::DEFAULT) {
+                Ok(mut second) => {
+                    second.driver.close()?;
+                    second.state
+                }
+                Err(RecoverError::Engine(msg)) => return Err(CaseError::Engine(msg)),
+                Err(_) => continue,
+            };
+            env.class("decoy:orphan-head-completed-and-reopened");
+            if let Err((msg, ..)) = check_no_phantom(&set, &state) {
+                return Err(fail(
+                    format!("orphan-head campaign variant {variant}: the {tail_len}-byte Last frame of the last record (queue {queue:?}, position {}) zero-filled in place; open succeeded; an entry of exactly {tail_len} serialized bytes was then appended to {target:?} and the log restarted: {msg}", host_pos + two_records as u64),
+                    &exec,
+                ));
+            }
+            env.nontrivial(mix(0x0D0D, variant as u64));
+            env.scratch.remove(&dir);
+            env.scratch.remove(&crash_dir);
+        }
+        Ok(())
+    }
 }
 
 impl Property for C08 {
@@ -193,7 +329,9 @@ impl Property for C08 {
          decoy-resync; any other phantom in that campaign is a violation); its mode B re-types the Last frame of a host record \
          whose continuation frame is the raw image of an entry, its mode C (no damage) lets a record straddle a file boundary \
          with such an image as its tail, truncates it, lets GC remove the first file and restarts: the orphan tail at the start \
-         of the WAL must not be delivered. evaluations = damaged images opened. \
+         of the WAL must not be delivered, its mode D zero-fills the Last frame of the last record (which starts a block), opens, \
+         appends one entry of exactly the lost frame's size and restarts: the orphan head must be dropped, not completed by \
+         the new entry's bytes. evaluations = damaged images opened. \
          non-trivial = damage changed bytes inside the written extent, open returned Ok and >= 1 record was recovered; \
          distinct = hash(history, damage list)."
             .to_string()
@@ -231,6 +369,7 @@ impl Property for C08 {
     /// Decoy campaign (deterministic, sharded): the known finding lives here and only here.
     fn fixed_work(&self, env: &mut Env, shard: u32, shards: u32) -> Result<(), CaseError> {
         self.orphan_tail_campaign(env, shard, shards)?;
+        self.orphan_head_campaign(env, shard, shards)?;
         let variants: u32 = if env.tier == Tier::Quick { 96 } else { 1024 };
         let mut first_known: Option<Failure> = None;
         for variant in 0..variants {
@@ -371,6 +510,9 @@ impl Property for C08 {
     fn run(&self, case: &Case, env: &mut Env) -> Result<(), CaseError> {
         if let Some(variant) = case.extra.as_ref().and_then(|extra| extra.get("orphan_variant")).and_then(|value| value.as_u64()) {
             return self.orphan_tail_campaign(env, variant as u32 % 256, 256);
+        }
+        if let Some(variant) = case.extra.as_ref().and_then(|extra| extra.get("orphan_head_variant")).and_then(|value| value.as_u64()) {
+            return self.orphan_head_campaign(env, variant as u32 % 768, 768);
         }
         if let Some(variant) = case.extra.as_ref().and_then(|extra| extra.get("decoy_variant")).and_then(|value| value.as_u64()) {
             // replay of a decoy-campaign case: re-run that variant strictly
